@@ -113,7 +113,7 @@ package pub
 //@ [C10] ensures accepted_200: result0 && result1 == nil && libWrote == 1 && b.enableFederatedProtocol && !typeUnknown && !lacksId && !lastBlocked && !reqMissing ==> status == 200
 //@ [C10] ensures library_status: libWrote == 1 ==> status == 405 || status == 400 || status == 403 || status == 200
 //@ modifies gExists, gOwnsValue, gNCol
-//@ modifies nSent, gResp, gReplied, gActor, gMe
+//@ modifies nSent, gResp, gReplied, gActor, gMe, gIdentified
 
 //@ func (*pub.baseActor).PostInbox
 //@ params b, c, w, r
@@ -131,7 +131,7 @@ package pub
 //@ [C10] ensures one_status: result0 && result1 == nil ==> wrote == 1
 //@ modifies $db, authed, cleared, typeUnknown, lacksId, lastBlocked, reqMissing, wrote, libWrote, status, sentHdr, bodyWrites, hdr, bufstr, H:net/url.URL.Host, H:net/url.URL.Scheme, A:Int, A:Iface, nDeliver, nNewID, actIdTick, leak, storedFollow, gMe, gObjWit, gDoc, gActWit
 //@ modifies gExists, gOwnsValue, gNCol
-//@ modifies nSent, gResp, gReplied, gActor, gMe
+//@ modifies nSent, gResp, gReplied, gActor, gMe, gIdentified
 
 //@ func (*pub.baseActor).PostOutboxScheme
 //@ params b, c, w, r, scheme
@@ -322,7 +322,7 @@ package pub
 //@ params a, c, r
 //@ [C11] requires a != nil && a.common != nil
 //@ [C07] requires authed: authed
-//@ modifies eff, appCalls
+//@ modifies eff, appCalls, nDeref, lastDeref
 //@ ensures eff == old(eff) + 1 && appCalls == old(appCalls) + 1
 //@ ensures result1 == nil ==> result0 != nil
 
@@ -330,7 +330,7 @@ package pub
 //@ params a, c, r
 //@ [C11] requires a != nil && a.s2s != nil
 //@ [C07] requires authed: authed
-//@ modifies eff, appCalls
+//@ modifies eff, appCalls, nDeref, lastDeref
 //@ ensures eff == old(eff) + 1 && appCalls == old(appCalls) + 1
 //@ ensures result1 == nil ==> result0 != nil
 
@@ -368,7 +368,7 @@ package pub
 //@ [C11] requires has_actor: activity.GetActivityStreamsActor() != nil
 //@ [C11] ensures id_kept: activity.GetJSONLDId() == old(activity.GetJSONLDId())
 //@ [C11] at call (streams.TypeResolver).Resolve#1: assume!post id_stable: activity.GetJSONLDId() == old(activity.GetJSONLDId())
-//@ modifies nSent, gResp, gReplied, gActor, gMe
+//@ modifies nSent, gResp, gReplied, gActor, gMe, gIdentified
 
 //@ func (*pub.sideEffectActor).InboxForwarding
 //@ params a, c, inboxIRI, activity
@@ -428,7 +428,7 @@ package pub
 //@ [C07] requires authed: authed
 //@ [C09] ensures unchanged: held == old(held)
 //@ [C08] ensures unchanged: held == old(held)
-//@ modifies eff, appCalls, ASH, ASHP, props, idval, nNewID, actIdTick
+//@ modifies eff, appCalls, nDeref, lastDeref, ASH, ASHP, props, idval, nNewID, actIdTick
 //@ [C11] ensures id_set: err == nil ==> activity.GetJSONLDId() != nil && activity.GetJSONLDId().Get() != nil
 //@ loop 1 [C11] invariant id_set: activity.GetJSONLDId() != nil && activity.GetJSONLDId().Get() != nil
 //@ [C05] at call pub.Activity.SetJSONLDId#1: ghost actIdTick = nNewID
@@ -439,6 +439,8 @@ package pub
 
 //@ func (*pub.sideEffectActor).Deliver
 //@ params a, c, outboxIRI, activity
+//@ [C02] at call (*pub.sideEffectActor).deliverToRecipients#1: assert payload_handed_over_once_with_all_the_inboxes: $arg3 == activity && $arg4 == recipients && $arg2 == outboxIRI && nDeliver == old(nDeliver)
+//@ [C02] ensures one_batch: nDeliver <= old(nDeliver) + 1 && (result == nil ==> nDeliver == old(nDeliver) + 1)
 //@ [C11] requires a != nil && a.db != nil && a.common != nil && a.s2s != nil && outboxIRI != nil && activity != nil
 //@ [C09] requires unlocked: held == emp
 //@ [C09] ensures unlocked: held == emp
@@ -463,13 +465,13 @@ package pub
 
 //@ func (*pub.sideEffectActor).deliverToRecipients
 //@ params a, c, boxIRI, activity, recipients
-//@ [C17] ensures one_batch: nDeliver <= old(nDeliver) + 1 && (result == nil ==> nDeliver == old(nDeliver) + 1)
+//@ [C17,C02] ensures one_batch: nDeliver <= old(nDeliver) + 1 && (result == nil ==> nDeliver == old(nDeliver) + 1)
 //@ [C17] at call streams.Serialize#1: assert serialises_the_activity_given: $arg0 == activity
 //@ [C17] at call pub.Transport.BatchDeliver#1: assert to_the_recipients_given: $arg3 == recipients && $arg2 == b
 //@ [C17] at call encoding/json.Marshal#1: assert marshals_that_serialisation: $arg0.pl == m
 //@ [C11] requires a != nil && a.common != nil && activity != nil
 //@ [C07] requires authed: authed
-//@ modifies eff, appCalls, nDeliver, leak
+//@ modifies eff, appCalls, nDeref, lastDeref, nDeliver, leak
 //@ [C03] ensures no_hidden_payload: old(stripped(activity)) ==> leak == old(leak)
 
 //@ func (*pub.sideEffectActor).addToOutbox
@@ -539,6 +541,14 @@ package pub
 
 //@ func (*pub.sideEffectActor).prepare
 //@ params a, c, outboxIRI, activity
+//@ [C02] ensures nothing_delivered_while_preparing: nDeliver == old(nDeliver)
+//@ loop 6 [C02] invariant own_backing_arrays: arrof(foundInboxesFromDB) != arrof(r) && arrof(foundActorsFromDB) != arrof(r) && arrof(foundInboxesFromDB) != arrof(foundActorsFromDB)
+//@ loop 6 [C02] invariant public_removed: forall j Int :: {r[j]} 0 <= j && j < len(r) ==> !IsPublic(str(r[j]))
+//@ loop 7 [C02] invariant public_removed: forall j Int :: {r[j]} 0 <= j && j < len(r) ==> !IsPublic(str(r[j]))
+//@ [C02] at call (*pub.sideEffectActor).resolveActors#1: assert public_is_never_dereferenced: forall j Int :: {$arg3[j]} 0 <= j && j < len($arg3) ==> !IsPublic(str($arg3[j]))
+//@ [C02] at call (*pub.sideEffectActor).resolveActors#1: assert resolution_starts_at_depth_zero_with_the_configured_limit: $arg4 == 0
+//@ [C02] at call pub.dedupeIRIs#1: assert own_inbox_is_ignored: len($arg1) == 1 && $arg1[0] == ignore
+//@ [C02] ensures no_duplicate_inboxes: err == nil ==> (forall j Int, k Int :: {r[j], r[k]} 0 <= j && j < k && k < len(r) ==> str(r[j]) != str(r[k]))
 //@ [C11] requires a != nil && a.db != nil && a.common != nil && a.s2s != nil && outboxIRI != nil && activity != nil
 //@ [C09] requires unlocked: held == emp
 //@ [C09] ensures unlocked: held == emp
@@ -572,17 +582,26 @@ package pub
 
 //@ func (*pub.sideEffectActor).resolveActors
 //@ params a, c, t, r, depth, maxDepth
+//@ [C02] ensures unfetchable_recipients_do_not_fail_the_delivery: err == nil
+//@ loop 1 [C02] invariant no_error_carried_over: err == nil
+//@ [C02] ensures nothing_dereferenced_at_or_beyond_the_depth_limit: maxDepth > 0 && depth >= maxDepth ==> len(actors) == 0 && nDeref == old(nDeref)
+//@ [C02] at call (*pub.sideEffectActor).resolveActors#1: assert each_level_consumes_one_unit_of_depth: $arg4 == depth + 1 && $arg5 == maxDepth && $arg2 == t && $arg3 == more
+//@ [C02] at call (*pub.sideEffectActor).dereferenceForResolvingInboxes#1: assert dereferences_the_recipient: $arg3 == u && $arg2 == t
 //@ [C11] requires a != nil && t != nil
 //@ [C07] requires authed: authed
-//@ modifies eff, appCalls, A:Int, A:Iface
+//@ modifies eff, appCalls, nDeref, lastDeref, A:Int, A:Iface
 //@ [C11] requires positive_limit: maxDepth > 0
 //@ [C11] decreases maxDepth - depth
 
 //@ func (*pub.sideEffectActor).dereferenceForResolvingInboxes
 //@ params a, c, t, actorIRI
+//@ [C02] ensures one_fetch_of_that_iri: nDeref == old(nDeref) + 1
+//@ [C02] at call pub.Transport.Dereference#1: assert fetches_the_recipient: $arg2 == actorIRI
+//@ loop 1 [C02] invariant one_fetch: nDeref == old(nDeref) + 1
+//@ loop 2 [C02] invariant one_fetch: nDeref == old(nDeref) + 1
 //@ [C11] requires a != nil && t != nil
 //@ [C07] requires authed: authed
-//@ modifies eff, appCalls, A:Int, A:Iface
+//@ modifies eff, appCalls, nDeref, lastDeref, A:Int, A:Iface
 
 // ---------------------------------------------------------------- federating_wrapped_callbacks.go
 //@ func (pub.FederatingWrappedCallbacks).create
@@ -605,6 +624,8 @@ package pub
 
 //@ func (pub.FederatingWrappedCallbacks).create$1
 //@ params iter
+//@ [C04] at call pub.Database.Create#1: ghost gDbErr = $res0
+//@ [C04] ensures a_failed_store_is_reported: result == nil ==> gDbErr == nil
 //@ [C04] ensures stores_one_value: nCreate <= old(nCreate) + 1 && (result == nil ==> nCreate == old(nCreate) + 1)
 //@ [C04] at call pub.Database.Create#1: assert stores_the_embedded_value_or_the_fetched_one: iter.GetType() != nil ==> $arg2 == iter.GetType()
 //@ [C04] at call pub.Transport.Dereference#1: assert fetches_the_object_given_by_iri: $arg2 == iter.GetIRI() && iter.GetType() == nil
@@ -639,6 +660,8 @@ package pub
 
 //@ func (pub.FederatingWrappedCallbacks).update$1
 //@ params iter
+//@ [C04] at call pub.Database.Update#1: ghost gDbErr = $res0
+//@ [C04] ensures a_failed_store_is_reported: result == nil ==> gDbErr == nil
 //@ [C04] ensures stores_one_value: nUpdate <= old(nUpdate) + 1 && (result == nil ==> nUpdate == old(nUpdate) + 1)
 //@ [C04] at call pub.Database.Update#1: assert stores_the_named_object: $arg2 == iter.GetType()
 //@ [C04] ensures nothing_else_changed: nCreate == old(nCreate) && nDelete == old(nDelete)
@@ -672,6 +695,8 @@ package pub
 
 //@ func (pub.FederatingWrappedCallbacks).deleteFn$1
 //@ params iter
+//@ [C04] at call pub.Database.Delete#1: ghost gDbErr = $res0
+//@ [C04] ensures a_failed_removal_is_reported: result == nil ==> gDbErr == nil
 //@ [C04] ensures removes_one_value: nDelete <= old(nDelete) + 1 && (result == nil ==> nDelete == old(nDelete) + 1)
 //@ [C04] at call pub.Database.Delete#1: assert removes_the_named_object: $arg2 == elemId(iter)
 //@ [C04] ensures nothing_else_changed: nCreate == old(nCreate) && nUpdate == old(nUpdate)
@@ -685,9 +710,12 @@ package pub
 
 //@ func (pub.FederatingWrappedCallbacks).follow
 //@ params w, c, a
-//@ modifies nSent, gResp, gReplied, gActor, gMe, gV0, nUpdate
+//@ modifies nSent, gResp, gReplied, gActor, gMe, gV0, nUpdate, gIdentified
 //@ [C04] at call pub.Database.ActorForInbox#1: ghost gActor = $res0
 //@ [C04] at call pub.Database.ActorForInbox#1: ghost gReplied = false
+//@ [C04] at call pub.Database.ActorForInbox#1: ghost gIdentified = nil
+//@ [C04] at call dyn.addNewIds#1: ghost gIdentified = ($res0 == nil ? $arg2 : nil)
+//@ [C04] at call dyn.deliver#1: assert only_an_identified_response_is_delivered: gIdentified == response && response != nil
 //@ [C04] at call (*net/url.URL).String#2: ghost gMe = ipos(iter)
 //@ [C04] at call streams.NewActivityStreamsActorProperty#1: ghost gReplied = true
 //@ [C04] at call streams.NewActivityStreamsActorProperty#1: assert replies_only_to_a_follow_naming_this_inboxs_actor: w.OnFollow != pub.OnFollowDoNothing && 0 <= gMe && gMe < a.GetActivityStreamsObject().Len() && str(elemId(a.GetActivityStreamsObject().At(gMe))) == str(actorIRI) && actorIRI == gActor
@@ -926,6 +954,8 @@ package pub
 
 //@ func (pub.SocialWrappedCallbacks).update$1
 //@ params idx, loopId
+//@ [C16] at call pub.Database.Update#1: ghost gDbErr = $res0
+//@ [C16] ensures a_failed_store_is_reported: result == nil ==> gDbErr == nil
 //@ [C16] ensures one_update_of_the_named_object: result == nil ==> nUpdate == old(nUpdate) + 1
 //@ modifies gM0d, gM0v, gNd, gNv, gRaw
 //@ [C16] at call streams/vocab.Type.Serialize#2: ghost gM0d = domof(m)
@@ -979,6 +1009,8 @@ package pub
 
 //@ func (pub.SocialWrappedCallbacks).deleteFn$1
 //@ params idx, loopId
+//@ [C16] at call pub.Database.Update#1: ghost gDbErr = $res0
+//@ [C16] ensures a_failed_store_is_reported: result == nil ==> gDbErr == nil
 //@ [C16] at call pub.Database.Get#1: ghost gStored = $res0
 //@ [C16] at call pub.Clock.Now#1: ghost gNowTick = nowTick
 //@ [C16] at call pub.Database.Update#1: assert replaced_by_tombstone_with_same_id_former_type_and_current_time: $arg2 != nil && $arg2.GetTypeName() == "Tombstone" && $arg2.GetJSONLDId() != nil && $arg2.GetJSONLDId().Get() == loopId && strelem(props[$arg2]["ActivityStreamsFormerType"], 0) == gStored.GetTypeName() && props[$arg2]["ActivityStreamsDeleted"] != nil && timeval[props[$arg2]["ActivityStreamsDeleted"]] == clockAt(gNowTick)
@@ -1098,6 +1130,8 @@ package pub
 
 //@ func pub.add$1
 //@ params t
+//@ [C04,C16] at call pub.Database.Update#1: ghost gDbErr = $res0
+//@ [C04,C16] ensures a_failed_store_is_reported: result == nil && gOwns ==> gDbErr == nil
 //@ modifies gV0, gOwns
 //@ [C04,C16] at call pub.Database.Owns#1: ghost gOwns = $res0 && $res1 == nil
 //@ [C04,C16] at call pub.Database.Get#1: ghost gV0 = ASHP
@@ -1114,7 +1148,7 @@ package pub
 //@ [C08] ensures unlocked: held == emp
 //@ [C07] requires authed: authed
 //@ [C08] at call Database.Update#1: assert same_hold: held[srcKey[tp]] && srcEpoch[tp] == epoch[srcKey[tp]]
-//@ modifies $dbstate, ASHP, props
+//@ modifies $dbstate, ASHP, props, gDbErr
 //@ loop 1 [C09] invariant holds_t: held == emp[str(t) := true]
 //@ loop 2 [C09] invariant holds_t: held == emp[str(t) := true]
 //@ loop 1 [C08] invariant holds_t: held == emp[str(t) := true] && srcKey[tp] == str(t) && srcEpoch[tp] == epoch[str(t)]
@@ -1142,6 +1176,8 @@ package pub
 
 //@ func pub.remove$1
 //@ params t
+//@ [C04,C16] at call pub.Database.Update#1: ghost gDbErr = $res0
+//@ [C04,C16] ensures a_failed_store_is_reported: result == nil && gOwns ==> gDbErr == nil
 //@ modifies gV0, gOwns, gR, gSrc, gKept
 //@ [C04,C16] at call pub.Database.Owns#1: ghost gOwns = $res0 && $res1 == nil
 //@ [C04,C16] at call pub.Database.Get#1: ghost gV0 = ASHP
@@ -1173,7 +1209,7 @@ package pub
 //@ [C08] ensures unlocked: held == emp
 //@ [C07] requires authed: authed
 //@ [C08] at call Database.Update#1: assert same_hold: held[srcKey[tp]] && srcEpoch[tp] == epoch[srcKey[tp]]
-//@ modifies $dbstate, ASHP, props
+//@ modifies $dbstate, ASHP, props, gDbErr
 //@ loop 1 [C09] invariant holds_t: held == emp[str(t) := true]
 //@ loop 2 [C09] invariant holds_t: held == emp[str(t) := true]
 //@ loop 1 [C08] invariant holds_t: held == emp[str(t) := true] && srcKey[tp] == str(t) && srcEpoch[tp] == epoch[str(t)]
@@ -1187,7 +1223,7 @@ package pub
 //@ params c, actors, op, newTransport, boxIRI
 //@ [C11] requires newTransport != nil
 //@ [C07] requires authed: authed
-//@ modifies eff, appCalls, gDoc, gActWit
+//@ modifies eff, appCalls, nDeref, lastDeref, gDoc, gActWit
 //@ [C11] requires op != nil
 //@ [C06] at call (*net/url.URL).String#1: ghost gActWit = gActWit[$res0 := ipos(iter)]
 //@ [C06] at call streams.ToType#1: ghost gDoc = gDoc[ipos(iter) := $res0]
@@ -1268,13 +1304,16 @@ package pub
 
 //@ func pub.filterURLs
 //@ params u, fn
+//@ [C02] ensures nothing_matching_is_left: forall j Int :: {result[j]} 0 <= j && j < len(result) ==> !fnHolds(fn, str(result[j]))
+//@ [C02] ensures only_shrinks: len(result) <= len(u)
+//@ loop 1 [C02] invariant kept_do_not_match: 0 <= i && i <= len(u) && len(u) <= old(len(u)) && (forall j Int :: {u[j]} 0 <= j && j < i ==> !fnHolds(fn, str(u[j])))
 //@ modifies A:Int
 //@ [C11] requires fn != nil
 //@ loop 1 [C11] invariant idx: 0 <= i
 //@ loop 1 [C11] decreases len(u) - i
 
 //@ dyncall pub.filterURLs.fn
-//@ pure
+//@ ensures result == fnHolds($fn, $arg0)
 
 //@ func pub.getInboxes
 //@ params t
@@ -1286,10 +1325,25 @@ package pub
 
 //@ func pub.dedupeIRIs
 //@ params recipients, ignored
+//@ [C02] ensures no_duplicates: forall j Int, k Int :: {out[j], out[k]} 0 <= j && j < k && k < len(out) ==> str(out[j]) != str(out[k])
+//@ [C02] ensures ignored_left_out: forall j Int, k Int :: {out[j], ignored[k]} 0 <= j && j < len(out) && 0 <= k && k < len(ignored) ==> str(out[j]) != str(ignored[k])
+//@ loop 1 [C02] invariant ignored_marked: forall k Int :: {ignored[k]} 0 <= k && k <= $ri ==> has(ignoredMap, str(ignored[k])) && ignoredMap[str(ignored[k])]
+//@ loop 2 [C02] invariant own_maps: ignoredMap != outMap && outMap != nil && ignoredMap != nil && (arrof(out) == 0 || (arrof(out) != arrof(ignored) && arrof(out) != arrof(recipients)))
+//@ loop 2 [C02] invariant ignored_marked: forall k Int :: {ignored[k]} 0 <= k && k < len(ignored) ==> has(ignoredMap, str(ignored[k])) && ignoredMap[str(ignored[k])]
+//@ loop 2 [C02] invariant out_marked: forall j Int :: {out[j]} 0 <= j && j < len(out) ==> has(outMap, str(out[j])) && outMap[str(out[j])] && !(has(ignoredMap, str(out[j])) && ignoredMap[str(out[j])])
+//@ loop 2 [C02] invariant out_distinct: forall j Int, k Int :: {out[j], out[k]} 0 <= j && j < k && k < len(out) ==> str(out[j]) != str(out[k])
 //@ modifies A:Int, A:Iface
 
 //@ func pub.removeOne
 //@ params entries, entry
+//@ modifies gSrc
+//@ [C02] at call (*net/url.URL).String#1: ghost gSrc = gSrc[len(out) := $ri]
+//@ [C02] ensures entry_removed_everywhere: forall j Int :: {out[j]} 0 <= j && j < len(out) ==> str(out[j]) != str(entry)
+//@ [C02] ensures only_old_entries_kept: forall j Int, w Int :: {out[j], old(entries[w])} 0 <= j && j < len(out) && w == gSrc[j] ==> 0 <= w && w < len(entries) && out[j] == old(entries[w])
+//@ loop 1 [C02] invariant none_equal_so_far: forall j Int :: {out[j]} 0 <= j && j < len(out) ==> str(out[j]) != str(entry) && 0 <= gSrc[j] && gSrc[j] <= $ri
+//@ loop 1 [C02] invariant entries_untouched: forall w Int :: {entries[w]} 0 <= w && w < len(entries) ==> entries[w] == old(entries[w])
+//@ loop 1 [C02] invariant kept_are_old_entries: forall j Int, w Int :: {out[j], old(entries[w])} 0 <= j && j < len(out) && w == gSrc[j] ==> out[j] == old(entries[w])
+//@ loop 1 [C02] invariant own_backing_array: (arrof(out) != arrof(entries) || arrof(out) == 0) && $ri < len(entries)
 //@ [C11] requires entry != nil
 //@ modifies A:Int, A:Iface
 
@@ -1405,6 +1459,8 @@ package pub
 
 //@ func pub.IsPublic
 //@ params s
+//@ pure none
+//@ [C02] ensures the_three_spellings_of_public: result == (s == "https://www.w3.org/ns/activitystreams#Public" || s == "Public" || s == "as:Public")
 
 //@ func pub.NewActivityStreamsHandlerScheme$1
 //@ params c, w, r
